@@ -1,8 +1,9 @@
 (* Lemmas_C15d.v — property C15, second half, WITHOUT the ban on holds.  Lemmas_C15b / Lemmas_C15c
    prove that the service loop reaches quiescence provided no handler answers HOLD any more and the
-   command is not held.  Here write and run handlers may answer HOLD at any time and the start state
-   may be held (with or without a release requested); only read / test scripts must not answer HOLD
-   (scope decision D3, predicate no_rt_hold of Lemmas_Inv.v).  Every cat_service call
+   command is not held.  Here any handler may answer HOLD at any time and the start state may be
+   held (with or without a release requested); there is no condition on HOLD answers at all (the
+   from-cat_init forms at the end assume no_rt_hold of Lemmas_Inv.v, scope decision D3, because
+   the invariants Safe and J are only reached under it).  Every cat_service call
      - decreases the potential Phi' = Phi (Lemmas_C15b) + one complete run of the command machine
        while the command is held (the release restarts the command machine), or
      - keeps Phi' and uses up a scheduled io attempt by a refusal, or
@@ -16,7 +17,8 @@
    assume NH, which holds in every state of the command machine other than CS_HOLD), the potential
    and the oracle lemmas of Lemmas_C15b.v / Lemmas_C15c.v.  New: the step lemmas of the EVENT machine
    without the assumption NH (the event machine runs while the command is held), the handler
-   continuations that enter / leave the hold, the state CS_HOLD. *)
+   continuations that enter / leave the hold, the state CS_HOLD.  The invariant on the hold flag
+   is HH: k_hold = true <-> k_state = CS_HOLD (the first clause of J). *)
 From Coq Require Import List NArith ZArith Bool Arith Lia Wf_nat.
 From CatV Require Import Bytes Defs Codec Fsm Script Skel SkelInv ResolveDefs SchedDefs TermDefs.
 From CatV Require Import Lemmas_C03 Lemmas_C12 Lemmas_C15 Lemmas_C15ba Lemmas_C15b Lemmas_C15c Lemmas_Inv.
@@ -278,6 +280,13 @@ Proof.
   destruct (_ && _); [apply X1 | apply X2]; apply KU_refl.
 Qed.
 
+(* a HOLD answer of a read / test handler, to either machine: the command machine is put on hold *)
+Lemma rt_tail_hold : forall rd f r s, (r_code r =? RC_HOLD)%Z = true ->
+  rt_tail D rd f r s = enable_hold_state (apply_edit f (r_edit r) s).
+Proof.
+  intros rd f r s H. apply Z.eqb_eq in H. unfold rt_tail. cbv zeta. rewrite H. reflexivity.
+Qed.
+
 End PureU.
 
 (* ================================================================== *)
@@ -350,24 +359,23 @@ Qed.
 Lemma KU_HH : forall s s', KU s s' -> HH s -> HH s'.
 Proof. intros s s' (A & B & _) H. apply (HH_keep s s' H); assumption. Qed.
 
-(* ---- scripts: no HOLD in read / test scripts, inner triggers name pool commands ---- *)
-Definition SOKd (h : shs) : Prop :=
-  no_rt_hold h = true /\ script_ok (res_calls_ok D) h = true.
+Lemma enable_hold_HH : forall s, HH (enable_hold_state s).
+Proof. intros s. unfold HH, enable_hold_state. sproj. split; reflexivity. Qed.
+
+(* ---- scripts: inner triggers name pool commands; NO condition on HOLD answers ---- *)
+Definition SOKd (h : shs) : Prop := script_ok (res_calls_ok D) h = true.
 
 Lemma SOKd_call : forall h q, SOKd h ->
-  SOKd (fst (s_call h q)) /\
-  (rt_kind (key_of q) = true -> (r_code (snd (s_call h q)) =? RC_HOLD)%Z = false) /\
-  res_calls_ok D (snd (s_call h q)) = true.
+  SOKd (fst (s_call h q)) /\ res_calls_ok D (snd (s_call h q)) = true.
 Proof.
-  intros h q [A B]. destruct (s_call_rt h q A) as [A1 A2].
+  intros h q B.
   destruct (s_call_ok (res_calls_ok D)) with (h := h) (q := q) as [B1 B2]; [destruct q0; reflexivity | exact B |].
-  split; [split; assumption|]. split; [|exact B2].
-  intros Hq. specialize (A2 Hq). unfold no_hold_res in A2. apply negb_true_iff in A2. exact A2.
+  split; assumption.
 Qed.
 
 Lemma h_san_eqd : forall h q, SOKd h -> h_san h q = s_call h q.
 Proof.
-  intros h q H. destruct (SOKd_call h q H) as (_ & _ & C). unfold Lemmas_C15b.h_san.
+  intros h q H. destruct (SOKd_call h q H) as (_ & C). unfold Lemmas_C15b.h_san.
   destruct (s_call h q) as [h' r]. cbn [snd] in C. rewrite C. reflexivity.
 Qed.
 
@@ -410,12 +418,11 @@ Qed.
 Lemma call_h_casesd : forall w q, SOKd (hs w) ->
   let w1 := fst (call_h w q) in let r := snd (call_h w q) in
   SOKd (hs w1) /\ io w1 = io w /\ hrel D m (st w) (st w1) /\
-  (rt_kind (key_of q) = true -> (r_code r =? RC_HOLD)%Z = false) /\
   (capok (st w) -> capok (st w1)) /\
   ((st w1 = st w /\ hs w1 = hs w /\ r = default_res q) \/ script_left (hs w1) < script_left (hs w)).
 Proof.
   intros w q H. cbv zeta. unfold Fsm.call_h.
-  destruct (SOKd_call _ q H) as (A & B & C). pose proof (s_call_cases (hs w) q) as Cs.
+  destruct (SOKd_call _ q H) as (A & C). pose proof (s_call_cases (hs w) q) as Cs.
   destruct (s_call (hs w) q) as [h' r]. cbn [fst snd] in *.
   match goal with |- context [fold_left _ _ ?x] => set (w2 := x) end.
   destruct (fold_icall_frame D (r_calls r) w2) as [F1 F2].
@@ -423,7 +430,6 @@ Proof.
   split.
   { apply (fold_icall_hrel D m WF); [apply res_calls_ok_Forall; exact C|].
     subst w2. wcbn. apply (fold_poke_hrel D m). apply hrel_refl. }
-  split; [exact B|].
   split.
   { intros Hcap. apply fold_icall_cap. subst w2. wcbn. unfold Lemmas_C15b.capok. rewrite u_fold_poke. exact Hcap. }
   destruct Cs as [[E1 E2] | E].
@@ -434,13 +440,13 @@ Qed.
 Lemma call_splitd : forall w q (P : sworld * hres -> Prop), SOKd (hs w) ->
   (forall w1, st w1 = st w -> hs w1 = hs w -> io w1 = io w -> P (w1, default_res q)) ->
   (forall w1 r, SOKd (hs w1) -> io w1 = io w -> hrel D m (st w) (st w1) ->
-     (rt_kind (key_of q) = true -> (r_code r =? RC_HOLD)%Z = false) -> (capok (st w) -> capok (st w1)) ->
+     (capok (st w) -> capok (st w1)) ->
      script_left (hs w1) < script_left (hs w) -> P (w1, r)) ->
   P (call_h w q).
 Proof.
   intros w q P H Hd Hc. pose proof (call_h_casesd w q H) as X. cbv zeta in X.
   destruct (call_h w q) as [w1 r]. cbn [fst snd] in X.
-  destruct X as (A & B & C & E & Cp & [(E1 & E2 & E3) | L]).
+  destruct X as (A & B & C & Cp & [(E1 & E2 & E3) | L]).
   - subst r. apply Hd; assumption.
   - apply Hc; assumption.
 Qed.
@@ -610,20 +616,26 @@ Proof.
       - apply (rt_tail_default_PG D rd ATCMD); [apply loop_NH; assumption | exact Hst].
       - apply rt_tail_default_PU0; exact Hst. }
     destruct rd; (apply stepG_pure; [exact HI | exact E2 | apply io_le_eq; assumption | exact X]).
-  - intros w1 r H1 E3 R Hc1 Hcap L. wred.
-    assert (Hc1' : (r_code r =? RC_HOLD)%Z = false) by (apply Hc1; destruct rd; reflexivity).
+  - intros w1 r H1 E3 R Hcap L. wred.
     pose proof (hrel_HH _ _ R Hh) as Hh1. pose proof (hrel_loop D m f _ _ R Hst) as Hst1.
     destruct R as (R1' & _). specialize (R1' HS).
     destruct (apply_edit_loop D m f (r_edit r) (st w1) R1' Hst1) as (_ & C2 & _).
     apply (consumed_after f w w1); try assumption.
-    + destruct f.
-      * apply NH_HH. exact (rt_tail_NH D rd ATCMD r (st w1) (loop_NH _ Hh1 Hst1) Hc1' C2).
-      * exact (KU_HH _ _ (rt_tail_U_KU D rd r (st w1) Hc1' C2) Hh1).
+    + match goal with |- HH ?x => change x with (rt_tail D rd f r (st w1)) end.
+      destruct (r_code r =? RC_HOLD)%Z eqn:Hc1'.
+      * rewrite (rt_tail_hold D rd f r (st w1) Hc1'). apply enable_hold_HH.
+      * destruct f.
+        -- apply NH_HH. exact (rt_tail_NH D rd ATCMD r (st w1) (loop_NH _ Hh1 Hst1) Hc1' C2).
+        -- exact (KU_HH _ _ (rt_tail_U_KU D rd r (st w1) Hc1' C2) Hh1).
     + destruct f.
       * apply (FR_le ATCMD). exact (rt_tail_FR D rd ATCMD r (st w1) (loop_NH _ Hh1 Hst1) C2).
-      * destruct (rt_tail_U_KU D rd r (st w1) Hc1' C2) as (_ & _ & Q).
-        match goal with |- u_count (u ?x) <= _ => change x with (rt_tail D rd UNSOL r (st w1)) end.
-        rewrite Q. lia.
+      * match goal with |- u_count (u ?x) <= _ => change x with (rt_tail D rd UNSOL r (st w1)) end.
+        destruct (r_code r =? RC_HOLD)%Z eqn:Hc1'.
+        -- rewrite (rt_tail_hold D rd UNSOL r (st w1) Hc1').
+           destruct (KU_apply_edit_U (r_edit r) (st w1)) as (_ & _ & Q).
+           change (u_count (u (enable_hold_state (apply_edit UNSOL (r_edit r) (st w1)))))
+             with (u_count (u (apply_edit UNSOL (r_edit r) (st w1)))). rewrite Q. lia.
+        -- destruct (rt_tail_U_KU D rd r (st w1) Hc1' C2) as (_ & _ & Q). rewrite Q. lia.
 Qed.
 
 Lemma fmt_NH : forall s rd, HH s -> fmt_state ATCMD s rd -> NH s.
@@ -663,7 +675,7 @@ Proof.
     + intros w1 E1' E2' E3'. cbn [default_res r_code Z.eqb negb]. wred. rewrite E1'.
       apply stepG_pure; [exact HI | exact E2' | apply io_le_eq; assumption |].
       apply Body; auto.
-    + intros w1 r H1 E3' R Hc1 Hcap L.
+    + intros w1 r H1 E3' R Hcap L.
       destruct (hrel_fmt D m f _ _ true R Hst) as (Hst1 & Ec1 & Ev1).
       pose proof (hrel_HH _ _ R Hh) as Hh1. destruct R as (R1' & _). specialize (R1' HS).
       destruct (negb (r_code r =? 0)%Z); wred; apply (consumed_after f w w1); try assumption.
@@ -676,9 +688,6 @@ Qed.
 
 Lemma ack_ok_NH : forall s, NH s -> NH (ack_ok s).
 Proof. intros s [A B]. unfold ack_ok, start_flush_c, Lemmas_C15ba.NH. sproj. split; [exact A | discriminate]. Qed.
-
-Lemma enable_hold_HH : forall s, HH (enable_hold_state s).
-Proof. intros s. unfold HH, enable_hold_state. sproj. split; reflexivity. Qed.
 
 Lemma write_tail_HH : forall code s, NH s -> HH (write_tail code s).
 Proof.
@@ -710,7 +719,7 @@ Proof.
   - intros w1 E1 E2 E3. wred. rewrite E1.
     apply stepC_pure; [exact HI | exact E2 | apply io_le_eq; assumption |].
     exact (write_tail_default_PC D (st w) Hnh Hst).
-  - intros w1 r H1 E3 R Hc1 Hcap L. wred. apply (consumed_after ATCMD w w1); try assumption.
+  - intros w1 r H1 E3 R Hcap L. wred. apply (consumed_after ATCMD w w1); try assumption.
     + exact (write_tail_HH (r_code r) (st w1) (hrel_NH D m _ _ R Hnh)).
     + match goal with |- u_count (u ?x) <= _ => change x with (write_tail (r_code r) (st w1)) end.
       rewrite write_tail_u. lia.
@@ -730,7 +739,7 @@ Proof.
   - intros w1 E1 E2 E3. wred. rewrite E1.
     apply stepC_pure; [exact HI | exact E2 | apply io_le_eq; assumption |].
     exact (run_tail_default_PC D (st w) Hnh Hst).
-  - intros w1 r H1 E3 R Hc1 Hcap L. wred. apply (consumed_after ATCMD w w1); try assumption.
+  - intros w1 r H1 E3 R Hcap L. wred. apply (consumed_after ATCMD w w1); try assumption.
     + exact (run_tail_HH (r_code r) (st w1) (hrel_NH D m _ _ R Hnh)).
     + match goal with |- u_count (u ?x) <= _ => change x with (run_tail D (r_code r) (st w1)) end.
       rewrite run_tail_u. lia.
@@ -772,7 +781,7 @@ Proof.
     + split_call; [exact HK | |].
       * intros w1 E1' E2' E3'. cbn [default_res r_code Z.eqb negb]. wred. rewrite E1'. cbn [Fsm.st Fsm.set_st].
         apply stepC_pure; [exact HI | exact E2' | apply io_le_eq; exact E3' | exact T2].
-      * intros w1 r H1 E3' R Hcd Hcap L. cbn [Fsm.st Fsm.set_st Fsm.hs Fsm.io] in *.
+      * intros w1 r H1 E3' R Hcap L. cbn [Fsm.st Fsm.set_st Fsm.hs Fsm.io] in *.
         pose proof (hrel_NH D m _ _ R Hn2) as Hn3. destruct R as (_ & _ & K & _).
         destruct (kv_proj _ _ K) as (K1 & K2 & _).
         assert (T3 : PC (st w1) (pwa_tail c comma (st w1)))
@@ -1143,7 +1152,6 @@ Theorem C15_quiescence_or_hold_proof : forall D m (w : sworld),
   d_mutex D = false ->
   wf_desc D m -> Safe D m (st _ _ _ w) ->
   J (ctl_of (st _ _ _ w)) ->
-  no_rt_hold (hs _ _ _ w) = true ->
   script_ok (res_calls_ok D) (hs _ _ _ w) = true ->
   u_count (u (st _ _ _ w)) <= d_cap D ->
   exists n, n <= C15_bound D w + sched_left w /\
@@ -1153,9 +1161,9 @@ Theorem C15_quiescence_or_hold_proof : forall D m (w : sworld),
     (k_state (k (st _ _ _ w')) = CS_HOLD /\ Defs.k_hold_exit (k (st _ _ _ w')) = 0%Z /\
      u_state (u (st _ _ _ w')) = US_IDLE /\ u_count (u (st _ _ _ w')) = 0).
 Proof.
-  intros D m w Hmx WF HS HJ S1 S2 Hc.
+  intros D m w Hmx WF HS HJ S2 Hc.
   destruct (reaches_ok_or_hold D m WF w Hmx) as (n & Hn & _ & Ho).
-  - split; [exact HS|]. split; [apply J_HH; exact HJ | split; assumption].
+  - split; [exact HS|]. split; [apply J_HH; exact HJ | exact S2].
   - exact Hc.
   - exists n. split; [pose proof (Phi'_bound D w); lia|]. exact Ho.
 Qed.
@@ -1182,7 +1190,6 @@ Theorem C15_quiescence_or_hold_nothing_left_proof : forall D m (w : sworld),
   d_mutex D = false ->
   wf_desc D m -> Safe D m (st _ _ _ w) ->
   J (ctl_of (st _ _ _ w)) ->
-  no_rt_hold (hs _ _ _ w) = true ->
   script_ok (res_calls_ok D) (hs _ _ _ w) = true ->
   u_count (u (st _ _ _ w)) <= d_cap D ->
   exists n, n <= C15_bound D w + sched_left w /\
@@ -1200,9 +1207,9 @@ Theorem C15_quiescence_or_hold_nothing_left_proof : forall D m (w : sworld),
         st _ _ _ (nsvc D j w') = st _ _ _ w' /\ hs _ _ _ (nsvc D j w') = hs _ _ _ w' /\
         io _ _ _ (nsvc D j w') = io _ _ _ w')).
 Proof.
-  intros D m w Hmx WF HS HJ S1 S2 Hc.
+  intros D m w Hmx WF HS HJ S2 Hc.
   destruct (reaches_ok_or_hold D m WF w Hmx) as (n & Hn & Hg & Ho).
-  - split; [exact HS|]. split; [apply J_HH; exact HJ | split; assumption].
+  - split; [exact HS|]. split; [apply J_HH; exact HJ | exact S2].
   - exact Hc.
   - exists n. split; [pose proof (Phi'_bound D w); lia|]. cbv zeta. set (w' := nsvc D n w) in *.
     destruct Ho as [[Hi Hok] | (Q1 & Q2 & Q3 & Q4)].
@@ -1243,7 +1250,7 @@ Proof.
   destruct (scenario_inv_scripted D m x mx h sops WF F A B) as (_ & HS & HJ & HR & HV). fold w in HS, HJ, HR, HV.
   destruct (C13_exactly_once_scenario D m x mx h sops (proj1 WF) (or_introl M) (valid_no_reinit D sops F))
     as [(_ & _ & _ & _ & Hc & _) _]. fold w in Hc.
-  exact (C15_quiescence_or_hold_proof D m w M WF HS HJ HR
+  exact (C15_quiescence_or_hold_proof D m w M WF HS HJ
            (script_ok_impl _ _ (res_calls_valid_ok D) _ HV) Hc).
 Qed.
 
@@ -1272,7 +1279,7 @@ Proof.
   destruct (scenario_inv_scripted D m x mx h sops WF F A B) as (_ & HS & HJ & HR & HV). fold w in HS, HJ, HR, HV.
   destruct (C13_exactly_once_scenario D m x mx h sops (proj1 WF) (or_introl M) (valid_no_reinit D sops F))
     as [(_ & _ & _ & _ & Hc & _) _]. fold w in Hc.
-  exact (C15_quiescence_or_hold_nothing_left_proof D m w M WF HS HJ HR
+  exact (C15_quiescence_or_hold_nothing_left_proof D m w M WF HS HJ
            (script_ok_impl _ _ (res_calls_valid_ok D) _ HV) Hc).
 Qed.
 
